@@ -466,7 +466,7 @@ def classify(src, r):
 def run(ctx, model_ok):
     rng = ctx.rng
     thorough = ctx.tier == "thorough"
-    nroutes, maxsteps = (400000, 7) if thorough else (30000, 5)
+    nroutes, maxsteps = (800000, 7) if thorough else (30000, 5)
     done = 0
     while done < nroutes:
         k = min(100000, nroutes - done)
